@@ -179,7 +179,7 @@ func (c *Conn) AsyncRead() {
 					_ = c.closeWithError(err)
 					return
 				}
-				if n < len(*pbuf) {
+				if n < len(*pbuf) && !c.IsUDP() {
 					break
 				}
 			}
@@ -219,7 +219,7 @@ func (c *Conn) AsyncRead() {
 					_ = c.closeWithError(err)
 					return
 				}
-				if n < len(*pBuf) {
+				if n < len(*pBuf) && !c.IsUDP() {
 					break
 				}
 			}
